@@ -329,6 +329,21 @@ def mk_reexam(ctx):
             is_key = (kind == 'keys' and not parts) or (kind == 'items' and parts == ['0'])
             if is_key and not clo and not (set(iter_adaptors(lp.src)) & LOSSY_ADAPTORS):
                 return [steps + [('scan', lp)]]
+            # the table was taken out of self and split: the ready entries travel on as whole entries (or their nodes),
+            # the others are put back
+            whole_entry = (kind == 'items' and parts in ([], ['1'])) or (kind == 'values' and not parts)
+            taken = any(w.kind in ('take', 'replace') and loc_target(it, w.loc) and loc_target(it, w.loc)[:2] == (1, ('orphans',))
+                        for w in it.muts.values())
+            if whole_entry and taken and not clo and not (set(iter_adaptors(lp.src)) & LOSSY_ADAPTORS):
+                put_back = False
+                for w in it.writes.values():
+                    tg = loc_target(it, w.loc)
+                    if tg and tg[:2] == (1, ('orphans',)) and w.kind == 'assign':
+                        nm = coll_local(w.val)
+                        if nm and any(f.local == nm and f.loop.head == lp.head for f in fills):
+                            put_back = True
+                if put_back:
+                    return [steps + [('scan', lp)]]
             return []
         name = coll_local(lp.raw_src)
         if name is None:
